@@ -32,9 +32,10 @@ RULE = ('cases: chains of 1..4 planes on a fresh wavefront, the class drawn per 
 TRUSTED = ['NumPy slicing/broadcasting of amplitude[s]*mask[s]*exp(2 pi i opd[s]/wavelength) and util.boundary (modelled by hand in Model/Plane.lean)',
            'pixel scales are compared for equality only; the model carries them as integers',
            'np.exp(1j*t) = cos t + i sin t (Float model) ; |z**2| = re^2 + im^2 up to rounding']
-UNPROVEN = ['fields and segment phasors with exactly one element are outside the theorems (known finding KF-C07-one-pixel-segment)',
+UNPROVEN = ['the wiring of Wavefront.field/intensity/insert (which view goes through reduce, how the weight enters) is hand-modelled and pinned, not regenerated',
+            'fields and segment phasors with exactly one element are outside the theorems (known finding KF-C07-one-pixel-segment)',
             'chains of planes AND propagations: each step is covered by a theorem (plane: plane_multiply_*; views after any step: intensity_eq_normSq_field, wavefront_insert_weight; '
-            'chain of planes: C03 chain_distrib; propagation: C02/C03), the interleaved chain as a whole by correspondence (c03.chain) and oracle only',
+            'chain of planes: C03 chain_distrib / chain_exp; propagation: C02/C03), the interleaved chain as a whole by correspondence (c03.chain) and oracle only',
             'views on shape-() wavefronts and zero-dimensional / single (1,1) fields: oracle only (the array model has no 0-d data; C06 reduceZ covers the merge)',
             'multiply overrides other than Plane/Pupil/Image/Tilt: DispersiveTilt/Grism (tilt bookkeeping, C04), LensletArray are not exercised; DispersiveAberration.multiply raises NotImplementedError; '
             'Rotate/Flip.multiply raise AttributeError (open known finding of C08)',
